@@ -103,7 +103,7 @@ def generic_plan(prop, tier, plan, worker, replay=None, extra=None, post=None):
             results.append(rc.run_exec(tr, "%s seed=%d" % (what, sd), simulate={"num": num, "seed": sd}, emit=True,
                                        backends=True, level=2, samplek=sim.pop("samplek", 6) if "samplek" in sim else 6,
                                        **{k: v for k, v in sim.items()}))
-    limit = plan.get("limit", (6000, 60000))[0 if tier == "quick" else 1]
+    limit = plan.get("limit", (6000, 30000))[0 if tier == "quick" else 1]
     cases = rc.collect_cases(results, limit=limit)
     pre = plan.get("prepare")
     if pre:
@@ -177,13 +177,13 @@ PLAN_C26 = {
         dict(what="BuilderAcceptance + all behaviours of 3 calls around joins with rule-breaking steps, two tables",
              fams=["order", "cols", "stack", "binary"], rows=0, steps=3, level=1, genbad=True, one_in=6, invariants=BUILDER_LAWS, **T12),
     ],
-    "sim": dict(what="random behaviours of 4 calls incl. rule-breaking steps", num=(2500, 25000), rows=0, steps=4, genbad=True, **SIMT),
+    "sim": dict(what="random behaviours of 4 calls incl. rule-breaking steps", num=(2500, 8000), rows=0, steps=4, genbad=True, **SIMT),
     "rule": "behaviours of Exec.tla with GenBad: after every valid prefix each construction rule is broken in turn "
             "(unknown column, produced column used in the same extend, partition/order column changed, ordered function "
             "without order_by, aggregate with order_by, non-aggregating / too complex project or window expression, missing "
             "join keys, CROSS with keys, requested common-key check, concat of different columns, rename onto an existing "
             "column) next to rule-conforming steps; non-trivial = contains at least one rule-breaking step",
-    "limit": (12000, 120000),
+    "limit": (12000, 30000),
     "assumptions": ["the construction rules are the operators *OK of spec/Relational.tla and WellFormed of spec/Exec.tla, written from the "
                     "builder docstrings and the property text", "only acceptance at the builder call is observed; nothing is evaluated"],
 }
@@ -329,11 +329,11 @@ PLAN_C06 = {
     ],
     "sim": dict(what="random pipelines of 4 calls biased to consecutive extends / selections / orderings",
                 fams=["extend", "extend2", "wextend", "cols", "order", "select_rows", "stack", "binary"],
-                num=(2000, 20000), rows=3, steps=4, genbad=True, **SIMT),
+                num=(2000, 6000), rows=3, steps=4, genbad=True, **SIMT),
     "rule": "behaviours of Exec.tla; each is built as one chained pipeline and, independently, step by step over table "
             "descriptions of the materialised intermediate results; non-trivial = the builder really simplified "
             "(the DAG did not grow by one node at some call)",
-    "limit": (5000, 50000),
+    "limit": (5000, 20000),
     "assumptions": ASSUME_REL + ["both sides of the comparison run on the Pandas executor, so executor deviations cancel; a side that "
                                  "raises at evaluation is counted and not judged (C01/C03 judge executors)"],
 }
@@ -490,12 +490,12 @@ PLAN_C10 = {
         dict(what="join (same and differently named keys) followed by a select / drop / rename, <= 1 row (sampled)",
              fams=["stack", "binary", "cols"], rows=1, steps=3, level=2, one_in=60, timeout=600, **T12),
     ],
-    "sim": dict(what="random pipelines of 4 calls over 2 tables of <= 3 rows", num=(1500, 15000), rows=3, steps=4, **SIMT),
+    "sim": dict(what="random pipelines of 4 calls over 2 tables of <= 3 rows", num=(1500, 5000), rows=3, steps=4, **SIMT),
     "rule": "behaviours of Exec.tla; for each, every input column the code's columns_used() does not report is set to nulls and to "
             "other values (Pandas and SQLite must return their unperturbed result), the SQL is run on tables restricted to the "
             "reported columns, and the pipeline rebuilt over narrowed table descriptions is evaluated on restricted frames; "
             "non-trivial = at least one column of a used table is unreported",
-    "limit": (3000, 30000),
+    "limit": (3000, 12000),
     "assumptions": ASSUME_REL + ["each backend is compared with its own unperturbed result, so executor deviations cancel",
                                  "narrowed rebuilds are possible only when no step names a removed column in a select/drop list"],
 }
@@ -608,12 +608,12 @@ PLAN_C19 = {
                 fams=UNARY, rows=1, steps=1, level=1, properties=["InputsFrozen"], **T1)],
     "emit": [dict(what="all 1-step pipelines over all tables with <= 1 row", fams=UNARY, rows=1, steps=1, level=1, **T1),
              dict(what="join/concat of two tables, <= 1 row (sampled)", fams=["stack", "binary"], rows=1, steps=2, level=2, one_in=10, **T12)],
-    "sim": dict(what="random pipelines of 4 calls over 2 tables of <= 3 rows", num=(1200, 12000), rows=3, steps=4, **SIMT),
+    "sim": dict(what="random pipelines of 4 calls over 2 tables of <= 3 rows", num=(1200, 5000), rows=3, steps=4, **SIMT),
     "rule": "behaviours of Exec.tla; each pipeline is evaluated through eval / transform / >> / act_on on Pandas frames with default, "
             "text and shuffled-integer indexes and on Polars frames; before/after snapshots of values, dtypes, columns and index; "
             "consecutive evaluations compared; the result is overwritten to detect shared memory; "
             "non-trivial = some input has rows and the pipeline has at least two calls",
-    "limit": (3000, 30000),
+    "limit": (3000, 10000),
     "assumptions": ["ex() is the same code path as eval() on the frames stored in the description (view_representations.ex) and is "
                     "exercised through eval", "pipelines with random-number methods are not generated"],
 }
@@ -821,12 +821,12 @@ PLAN_C15 = {
                 steps=1, level=1, **T1)],
     "emit": [dict(what="all 1-step pipelines over all tables with <= 1 row", fams=UNARY, rows=1, steps=1, level=1, **T1),
              dict(what="join/concat of two tables, <= 1 row (sampled)", fams=["stack", "binary"], rows=1, steps=2, level=2, one_in=6, **T12)],
-    "sim": dict(what="random pipelines of 3 calls over 2 tables of <= 3 rows", num=(1200, 12000), rows=3, steps=3, **SIMT),
+    "sim": dict(what="random pipelines of 3 calls over 2 tables of <= 3 rows", num=(1200, 5000), rows=3, steps=3, **SIMT),
     "rule": "behaviours of Exec.tla; each is rebuilt under 3 injective renamings of all tables and columns drawn from the names the "
             "executors and the SQL generator use internally (read from /repo's sources at check time: scratch columns, join "
             "suffixes, generated view / alias names) and must give, after renaming back, the result of the unrenamed pipeline on "
             "the same backend (Pandas, SQLite, Polars); non-trivial = some input has rows",
-    "limit": (3000, 30000),
+    "limit": (3000, 10000),
     "assumptions": ["each backend is compared with itself under the identity naming, so executor deviations cancel",
                     "names containing the identifier quote character are outside the property"],
 }
@@ -961,13 +961,13 @@ PLAN_C07 = {
         MICRO_W2, micro(2, 10),
         dict(what="all 2-call unary pipelines, one table, <= 1 row (sampled)", fams=UNARY, rows=1, steps=2, level=1, one_in=150, timeout=600, **TB),
     ],
-    "sim": dict(what="random pipelines of 4 calls over 2 tables of <= 3 rows", num=(2000, 20000), rows=3, steps=4, **SIMT),
+    "sim": dict(what="random pipelines of 4 calls over 2 tables of <= 3 rows", num=(2000, 6000), rows=3, steps=4, **SIMT),
     "rule": "behaviours of Exec.tla are cut at points where one sub-pipeline is open: a = the calls before, b = the calls after, rebuilt "
             "over a table description with a's columns; b.replace_leaves, b.act_on(map), map >> b, a >> b and DataOpArrow "
             "composition must all evaluate to b applied to the materialised result of a (and to the chained pipeline); two cuts "
             "give the associativity check; dom/cod of the composed arrow are compared with the reference columns; "
             "non-trivial = at least one composition was evaluated",
-    "limit": (3000, 30000),
+    "limit": (3000, 12000),
     "assumptions": ASSUME_REL + ["all sides run on the Pandas executor; a side that raises at evaluation is counted, not judged"],
 }
 
@@ -1097,13 +1097,13 @@ PLAN_C04 = {
                   steps=2, level=1, one_in=300, timeout=300, tier=("thorough",), **TB)],
     "sim": dict(what="random pipelines of 4 calls biased to shared sub-pipelines and consecutive extends",
                 fams=["extend", "extend2", "wextend", "stack", "binary", "cols", "select_rows", "project"],
-                num=(1500, 15000), rows=3, steps=4, **SIMT),
+                num=(1500, 5000), rows=3, steps=4, **SIMT),
     "rule": "behaviours of Exec.tla; the SQL of each is generated for SQLiteModel and PostgreSQLModel (CTE elimination really "
             "active; executed by proxy on SQLite), with extend merging on and off, under all 32 combinations of use_with, annotate, "
             "initial_commas, use_cte_elim and two indents when the pipeline re-uses a sub-pipeline or has consecutive extends (a "
             "5-combination cover otherwise), de-duplicated by text, executed, and every result compared with the first; "
             "non-trivial = shared sub-pipeline or consecutive extends, and some input has rows",
-    "limit": (500, 12000),
+    "limit": (500, 3000),
     "assumptions": ASSUME_REL + ["PostgreSQL-dialect text is executed on SQLite 3.40 (no PostgreSQL engine in the sandbox)",
                                  "statements that raise under an option combination are counted, not compared"],
 }
@@ -1252,7 +1252,7 @@ PLAN_C11 = {
             "constant, aggregate, key list, reversal, limit, join type, label ...); for each pair the real p == q, q == p, p != q and "
             "p == p are evaluated; if p == q the TLA+ reference results on the shared input, the Pandas results and the SQL text in "
             "the SQLite and PostgreSQL dialects must coincide; non-trivial = the pair compares equal",
-    "limit": (60000, 400000),
+    "limit": (60000, 120000),
     "assumptions": ["distinguishability is witnessed on the inputs TLC generated for the pair; record-map arguments are covered by C17"],
 }
 
